@@ -9,7 +9,9 @@ pub mod c01;
 pub mod c02;
 pub mod c03;
 pub mod c04;
+pub mod c05;
 pub mod c06;
+pub mod c07;
 pub mod c10;
 pub mod c11;
 
@@ -55,7 +57,9 @@ pub fn run_prop<C: RandomizedCiphersuite, L: Lab<C>>(prop: &str, lab: &mut L, p:
         "C02" => c02::run::<C, L>(lab, p),
         "C03" => c03::run::<C, L>(lab, p),
         "C04" => c04::run::<C, L>(lab, p),
+        "C05" => c05::run::<C, L>(lab, p),
         "C06" => c06::run::<C, L>(lab, p),
+        "C07" => c07::run::<C, L>(lab, p),
         "C10" => c10::run::<C, L>(lab, p),
         "C11" => c11::run::<C, L>(lab, p),
         _ => panic!("unknown property {prop}"),
@@ -67,7 +71,9 @@ pub fn cases(prop: &str, thorough: bool, seed: u64) -> Vec<Params> {
         "C02" => c02::cases(thorough, seed),
         "C03" => c03::cases(thorough, seed),
         "C04" => c04::cases(thorough, seed),
+        "C05" => c05::cases(thorough, seed),
         "C06" => c06::cases(thorough, seed),
+        "C07" => c07::cases(thorough, seed),
         "C10" => c10::cases(thorough, seed),
         "C11" => c11::cases(thorough, seed),
         _ => panic!("unknown property {prop}"),
